@@ -74,7 +74,7 @@ def trial(entry, args):
     root = make_scratch()
     try:
         if "patch" in entry:
-            proc = subprocess.run(["patch", "-p1", "-i", entry["patch"]], cwd=root, capture_output=True, text=True)
+            proc = subprocess.run(["patch", "-p1", "-i", os.path.join(VERIF, entry["patch"])], cwd=root, capture_output=True, text=True)
             if proc.returncode != 0:
                 return entry, None, None, "patch failed: " + proc.stdout + proc.stderr
         else:
@@ -101,8 +101,11 @@ def main():
     if args.patch:
         entries = [{"id": os.path.basename(args.patch), "property": args.prop, "patch": os.path.abspath(args.patch), "kind": "break"}]
     else:
-        with open(os.path.join(VERIF, "mutants", "catalogue.json")) as fobj:
-            entries = json.load(fobj)["mutants"]
+        entries = []
+        for name in sorted(os.listdir(os.path.join(VERIF, "mutants"))):
+            if name.endswith(".json"):
+                with open(os.path.join(VERIF, "mutants", name)) as fobj:
+                    entries.extend(json.load(fobj)["mutants"])
         if args.prop:
             entries = [e for e in entries if e["property"] == args.prop.upper()]
         if args.only:
